@@ -33,7 +33,7 @@ RULE = ('cases: wavefronts of shape 1..5 x 1..5 (one full field, or 2-3 sub-fiel
         'propagate_dft on the full period, on a smaller centred window (shape), and on a window nested in it (smaller shape / '
         'prop_shape / off-centre mask box), pupil→image and image→pupil, scalar and per-axis input sampling dx, untilted / common tilt (integer + sub-pixel, incl. the displaced full period) / per-field sub-pixel tilts, Wavefront.insert with weight ≠ 1; propagate_fft full and cropped, with and without scratch; normalize_power of complex '
         'arrays and of pupil amplitudes that are then imaged. distinct = (kind, field shapes/offsets, K, L, os, windows); '
-        'non-trivial = not (square, isotropic, single field) i.e. outside what the test-suite samples A ≈5 % sample (search tier: a leading block of 150 + padded FFT grids of 2048², 4096×1024, 1024×4100 checked by their totals) comes from an extremes stream: normalize_power targets within 1e-7 … 3e-5 relative or 1e-8 absolute of the present power at amplitude scales 1e-9 … 1e3, field amplitudes at 1e-9 / 1e9, wavelengths / distances / pixel sizes from 1e-9 to 1e6 with near-equal per-axis dx, 33–47 fields per wavefront; the quick tier runs one 4096×1024 FFT grid; all tolerances are relative to Σ|f_k|² resp. the target power. About 10 % of the cases are segmented pupils (3-D mask, 2-3 disjoint segments) on wider-than-tall and taller-than-wide arrays, amplitude normalised to p, imaged over one period by both propagators and judged against the plane\'s amplitude·mask power (oracle only). One FFT case in six asks for a shape larger than the grid allows or passes a scratch smaller than the grid (both must raise ValueError, as the C09 model does). Overlapping fields with different sub-pixel tilts are generated and judged against the power of the coherently summed ramped inputs; one-sample windows are generated for multi-field wavefronts too.')
+        'non-trivial = not (square, isotropic, single field) i.e. outside what the test-suite samples A ≈5 % sample (search tier: a leading block of 150 + padded FFT grids of 2048², 4096×1024, 1024×4100 checked by their totals) comes from an extremes stream: normalize_power targets within 1e-7 … 3e-5 relative or 1e-8 absolute of the present power at amplitude scales 1e-9 … 1e3, field amplitudes at 1e-9 / 1e9, wavelengths / distances / pixel sizes from 1e-9 to 1e6 with near-equal per-axis dx, 33–47 fields per wavefront; the quick tier runs one 4096×1024 FFT grid; all tolerances are relative to Σ|f_k|² resp. the target power. About 10 % of the cases are segmented pupils (3-D mask, 2-3 disjoint segments) on wider-than-tall and taller-than-wide arrays, amplitude normalised to p, imaged over one period by both propagators and judged against the plane\'s amplitude·mask power (oracle only). propagate_fft with a scratch array on critically sampled grids (FFT grid = wavefront shape, one full-frame field at offset 0: the coincident-field path of field.insert on the scratch view; 10 per quick run, 150 thorough, a leading block of 40 in the search tier). One FFT case in six asks for a shape larger than the grid allows or passes a scratch smaller than the grid (both must raise ValueError, as the C09 model does). Overlapping fields with different sub-pixel tilts are generated and judged against the power of the coherently summed ramped inputs; one-sample windows are generated for multi-field wavefronts too.')
 TRUSTED = ['np.fft.fft2(norm="ortho") is the unitary DFT with origin at index 0; np.fft.fftshift / ifftshift follow their documented '
            'index maps (modelled in C09, observed through the c09.propagate_fft correspondence)',
            'np.dot / np.exp / np.abs / np.sum as written in the model; Wavefront.intensity merges coincident output fields (C06)',
@@ -225,15 +225,33 @@ def _extreme(rng, kmax):
         return c
     return c
 
+def _critical_fft(rng):
+    """propagate_fft WITH a scratch array on a critically sampled grid: the FFT grid equals the wavefront shape (no zero padding) and the
+    wavefront is one full-frame field at offset (0, 0), so field.insert takes its coincident-field path on the scratch view; scratch
+    of exactly the grid size or larger; whole grid or a cropped shape. The image total must still be the input power."""
+    os_ = int(rng.integers(1, 4))
+    a, b = int(rng.integers(1, 4)), int(rng.integers(1, 4))
+    if os_ * a * os_ * b == 1: b = 2
+    m, n = a * os_, b * os_
+    re, im = _cdata(rng, m * n)
+    s = [a, b]
+    return {'kind': 'fft', 'wshape': [m, n], 'os': os_, 'full': s, 'phys': _phys(rng),
+            'fields': [{'shape': [m, n], 'off': [0, 0], 're': re, 'im': im}],
+            'crop': _sub(rng, s) if rng.integers(0, 3) == 0 else None,
+            'scratch': [0, 0] if rng.integers(0, 2) else [int(rng.integers(0, 4)), int(rng.integers(0, 4))], 'critical': True}
+
 def generate(rng, tier):
     n, kmax = {'quick': (200, 10), 'thorough': (3000, 16), 'search': (350, 10)}[tier]
     out = []
     if tier == 'search':                 # only run once a tie is already broken: the nasty inputs first
+        out += [_critical_fft(rng) for _ in range(40)]
         out += [_seg_case(rng, kmax) for _ in range(40)] + [_extreme(rng, kmax) for _ in range(150)]
         out += [_big_fft(rng, g) for g in ((2048, 2048), (4096, 1024), (1024, 4100))]
     for i in range(n):
         out.append(_extreme(rng, kmax) if (tier != 'search' and i % 20 == 7) else _case(rng, kmax))
     if tier == 'quick': out.append(_big_fft(rng, (4096, 1024)))
+    # appended after the main stream, so that the cases of existing seeds are unchanged
+    if tier != 'search': out += [_critical_fft(rng) for _ in range({'quick': 10, 'thorough': 150}[tier])]
     if tier == 'thorough': out += [_extreme(rng, kmax) for _ in range(150)] + [_big_fft(rng, g) for g in ((2048, 2048), (4096, 1024))]
     return out
 
@@ -268,6 +286,7 @@ def tags(c):
     if c['kind'] == 'fft':
         if c['crop']: t.append('fft:crop')
         if c['scratch']: t.append('fft:scratch')
+        if c.get('critical'): t.append('fft:critical-grid+scratch')
         if c.get('bad'): t.append('fft:refused-' + c['bad'])
     if c['kind'] == 'norm': t.append('norm:' + ('complex' if c['amp_im'] is not None else 'pupil-' + c['via']))
     if c.get('summary'): t.append('fft-grid>=2048^2')
